@@ -591,6 +591,115 @@ fn run_real_text_nodefine(text: &str) -> Result<Result<Vec<usize>, PreprocessErr
 
 // -------------------------------------------------------------------------------------------
 
+
+// -------------------------------------------------------------------------------------------
+// Part 4: #include / #pragma / unknown or malformed directives inside unselected branches have no effect
+
+const CTX_LETTERS: &[&str] = &["#if 0", "#if 1", "#ifdef D", "#ifndef D", "#elif 0", "#elif 1", "#else"];
+
+/// every well-formed conditional context (no #endif) of ≤ 3 lines, with the model's verdict whether text after it is active
+fn contexts() -> Vec<(Vec<&'static str>, bool, usize)> {
+    let mut out = vec![(vec![], true, 0usize)];
+    let n = CTX_LETTERS.len();
+    for len in 1..=3usize {
+        for idx in 0..n.pow(len as u32) {
+            let mut k = idx;
+            let mut lines = Vec::new();
+            let mut m = CondModel::new();
+            let mut ok = true;
+            for _ in 0..len {
+                let l = CTX_LETTERS[k % n];
+                k /= n;
+                if m.step(l) != StepResult::Ok {
+                    ok = false;
+                    break;
+                }
+                lines.push(l);
+            }
+            if ok {
+                out.push((lines, m.active(), m.stack.len()));
+            }
+        }
+    }
+    out
+}
+
+struct Effect {
+    name: &'static str,
+    /// directive placed inside the context (in main or in the header)
+    line: &'static str,
+    in_header: bool,
+}
+
+const EFFECTS: &[Effect] = &[
+    Effect { name: "include", line: "#include \"inc\"", in_header: false },
+    Effect { name: "include-missing", line: "#include \"missing\"", in_header: false },
+    Effect { name: "pragma-once", line: "#pragma once", in_header: true },
+    Effect { name: "pragma-unknown", line: "#pragma foo", in_header: false },
+    Effect { name: "unknown-directive", line: "#foo bar", in_header: false },
+    Effect { name: "malformed-define", line: "#define 1", in_header: false },
+    Effect { name: "malformed-undef", line: "#undef 1 2", in_header: false },
+    Effect { name: "malformed-include", line: "#include foo", in_header: false },
+];
+
+fn check_effect(ctx_lines: &[&str], active: bool, depth: usize, e: &Effect, acc: &mut Acc) {
+    acc.evals += 1;
+    let mut body = String::new();
+    for l in ctx_lines {
+        body.push_str(l);
+        body.push('\n');
+    }
+    body.push_str(e.line);
+    body.push('\n');
+    for _ in 0..depth {
+        body.push_str("#endif\n");
+    }
+    let (main, header) = if e.in_header {
+        ("#define D 1\n#include \"h\"\n#include \"h\"\nm;\n".to_string(), format!("{}h;\n", body))
+    } else {
+        (format!("#define D 1\n{}m;\n", body), String::new())
+    };
+    let replay = format!("kind: effect\n{}\n{}", e.name, ctx_lines.join("\n"));
+    let r = guard(|| {
+        let mut sm = SourceManager::new();
+        let mut files = [("main.rssl", main.as_str()), ("inc", "i;\n"), ("h", header.as_str())];
+        let r = rssl::preprocess::preprocess("main.rssl", &mut sm, &mut files, &[]);
+        r.map(|t| rssl::preprocess::unlex(&t, &sm))
+    });
+    let ctx = ctx_lines.join(" / ");
+    match r {
+        Err(p) => acc.violation(Violation { signature: p.signature(), detail: format!("[{}] {} panicked: {}", ctx, e.line, p.message), replay }),
+        Ok(res) => {
+            let verdict: Result<(), String> = match (e.name, &res) {
+                ("include", Ok(out)) => {
+                    let has = out.lines().any(|l| l.trim() == "i;");
+                    if has == active { Ok(()) } else { Err(format!("included text present={} but branch active={}", has, active)) }
+                }
+                ("pragma-once", Ok(out)) => {
+                    let n = out.lines().filter(|l| l.trim() == "h;").count();
+                    let want = if active { 1 } else { 2 };
+                    if n == want { Ok(()) } else { Err(format!("header body appears {} times, expected {} (#pragma once in an {} branch)", n, want, if active { "active" } else { "unselected" })) }
+                }
+                (_, Ok(_)) if e.name != "include" && e.name != "pragma-once" => {
+                    if active { Err("ill-formed directive in an active branch was accepted".to_string()) } else { Ok(()) }
+                }
+                (_, Err(err)) => {
+                    if active && e.name != "include" && e.name != "pragma-once" { Ok(()) } else { Err(format!("rejected although the directive is in an unselected branch (or is well formed): {:?}", err)) }
+                }
+                _ => Ok(()),
+            };
+            match verdict {
+                Ok(()) => acc.outcome(&(e.name, ctx_lines.to_vec(), active)),
+                Err(why) => acc.violation(Violation {
+                    signature: format!("cond|directive-in-unselected-branch-has-effect|{}", e.name),
+                    detail: format!("context [{}] (active={}), directive `{}`: {}", ctx, active, e.line, why),
+                    replay,
+                }),
+            }
+        }
+    }
+}
+
 pub fn run(ctx: &Ctx) -> i32 {
     let mut rep = Report::new("model_checking");
     rep.rule = "E2: BFS over directive histories with the real preprocessor as transition function; a state is (real ConditionChain, real macro table restricted to D/U, reference-model state); non-trivial/distinct = distinct canonical states plus distinct condition token strings with their value".into();
@@ -769,6 +878,19 @@ pub fn run(ctx: &Ctx) -> i32 {
     });
     rep.absorb("condition_strings", r);
 
+    // ---- Part 4: other directives inside unselected branches
+    let ctxs = contexts();
+    let total = (ctxs.len() * EFFECTS.len()) as u64;
+    let r = run_par(ctx, total, 64, |idx, acc| {
+        let (lines, active, depth) = &ctxs[(idx as usize) / EFFECTS.len()];
+        let e = &EFFECTS[(idx as usize) % EFFECTS.len()];
+        check_effect(lines, *active, *depth, e, acc);
+        if idx % 397 == 5 {
+            acc.sample(obj(vec![("space", "directive-effect".into()), ("context", lines.join(" / ").into()), ("directive", e.line.into())]));
+        }
+    });
+    rep.absorb("directives_in_branches", r);
+
     rep.assumptions = vec![
         "the BFS key contains the complete state the directive handler carries (ConditionChain vector and macro table, hook H3) plus the full reference-model state, so merged states have identical futures".into(),
         "sequences that C leaves ill-formed but the property does not list (second #else, #elif after #else) are only required not to panic and are not extended".into(),
@@ -799,6 +921,22 @@ pub fn replay(ctx: &Ctx, body: &str) -> i32 {
             if acc.viol.keys().collect::<Vec<_>>() != acc2.viol.keys().collect::<Vec<_>>() {
                 eprintln!("machinery error: replay is not deterministic");
                 return 2;
+            }
+        }
+        "kind: effect" => {
+            let mut it = rest.lines();
+            let name = it.next().unwrap_or("");
+            let lines: Vec<&'static str> = it.filter_map(|l| CTX_LETTERS.iter().copied().find(|c| *c == l)).collect();
+            let mut m = CondModel::new();
+            for l in &lines {
+                m.step(l);
+            }
+            match EFFECTS.iter().find(|e| e.name == name) {
+                Some(e) => check_effect(&lines, m.active(), m.stack.len(), e, &mut acc),
+                None => {
+                    eprintln!("machinery error: unknown effect {:?}", name);
+                    return 2;
+                }
             }
         }
         "kind: cond" => {
